@@ -779,6 +779,9 @@ class NetworkGraph(AbstractBaseIR):
                         args[w_str] = {'vtype': 'constant', 'value': w_1d, 'dtype': 'float', 'shape': w_1d.shape}
                         eqs.append(f"{t_str} = {w_str} * {s_str}")
                     else:
+                        if weight.shape[0] == 1:
+                            w_1d = weight.squeeze(axis=0)
+                            args[w_str] = {'vtype': 'constant', 'value': w_1d, 'dtype': 'float', 'shape': w_1d.shape}
                         eqs.append(f"{t_str} = matvec({w_str}, {s_str})")
                 else:
                     # case 0b / 0c: matrix coupling with custom edge equations
